@@ -25,6 +25,7 @@ import (
 	"os/exec"
 	"path/filepath"
 	"regexp"
+	"runtime/debug"
 	"sort"
 	"strconv"
 	"strings"
@@ -599,6 +600,11 @@ func c17Feature(c *c17Case, ref *c17RefResult) string {
 }
 
 func TestVerifC17(t *testing.T) {
+	// "links that form cycles make the copy fail instead of being followed
+	// forever": unbounded recursion must end as a (process-fatal, attributed)
+	// stack overflow after 48 MiB of stack, not after the default 1 GB per
+	// child process.
+	debug.SetMaxStack(48 << 20)
 	run := verifkit.Start(t, "C17")
 	if spec := os.Getenv("VERIF_C17_CHILD"); spec != "" {
 		c17ChildMain(t, spec, run.Seed())
@@ -616,7 +622,10 @@ func TestVerifC17(t *testing.T) {
 	tally := map[string]int{}
 	ncases := 0
 	doCase := func(stream string, i int, c *c17Case) {
-		run.Input(c, len(c.Mounts) > 0)
+		// persisted before every copy: a runaway recursion (stack overflow, see
+		// SetMaxStack in TestVerifC17) or a panic on another goroutine kills the
+		// process, and the driver attributes the crash to this input
+		run.Input(c, true)
 		r := &c17Runner{run: run, base: base, stream: stream, idx: i}
 		out := r.evalSafe(c)
 		if out.SetupErr != "" {
